@@ -12,5 +12,5 @@ CONSTANTS
   WithQueries = TRUE
 VIEW view
 ACTION_CONSTRAINT Edge
-INVARIANTS Refines NotPanicked HolderMatches TrackerAgrees VerdictIsDisjunction BodySentIffNotRefused Late100SkippedOnce RedirectIff
+INVARIANTS Refines NotPanicked HolderMatches TrackerAgrees VerdictIsDisjunction BodySentIffNotRefused Late100SkippedOnce RedirectIff OutcomeDeterministic
 CHECK_DEADLOCK FALSE
